@@ -55,6 +55,26 @@ prop('C08', 'proof',
 
 
 
+
+prop('C02', 'proof',
+     'Verus spec-equality contracts (spec functions written from the published MPQ format) + Kani complete harnesses on constants, key statements (E11 blocks) and key formulas',
+     'Partial: agreement with the published algorithms, not with a second implementation. Proved unbounded (Verus, shared with C04): crypt table, name hash (with the published test vectors proved about the spec), block cipher equal the published algorithms. Kani complete: block/hash-table flag constants, compression selectors and hash-type offsets equal the published values; the key statements of builder write_hash_table/write_block_table and of the table readers (E11 blocks) evaluate to 0xC3AF3770 / 0xEC83B3A3; ArchiveBuilder::calculate_file_key and the key computation of Archive::read_file (E11 block) both equal the published formula (hash(name,0x300) + file position) ^ file size under FIX_KEY, for all positions/sizes/flags; HashEntry/BlockEntry decoders are little-endian at the published offsets.',
+     'No independent implementation can be run by a deductive verifier; "interoperates" is decided only as "equals the published algorithm" for the listed kernels. Header byte layout (write_header / MpqHeader::read), sector layout, per-sector compression bytes, HET/BET are NOT under contract. Undecided observations (DESIGN §4 C02): tail bytes of an encrypted block are enciphered with key + n; sector checksums are stored between offset table and data.',
+     ['builder.rs: write_header, write_file, write_hash_table/write_block_table (except the key statement), HET/BET writers', 'header.rs: MpqHeader read/parse', 'archive.rs: everything except the read_file key block',
+      'compression/methods.rs beyond the selector constants'])
+
+prop('C13', 'proof',
+     'Kani complete harnesses (loop-free, full byte domain, symbolic version) on the real record codecs; bounded stand-ins by version representative for M2Bone',
+     'Partial: fixed-size record codecs. Kani complete: for M2Array, M2Track<C3Vector> (28/20 bytes by version), M2Animation (every version, every field value; F18 repaired) and M2Material, write(parse(bytes)) reproduces exactly the bytes read and the number of bytes equals the version-dependent record size; since every field is a plain little-endian scalar this also gives parse(write(v)) == v on the image of parse. Kani bounded: M2Bone header (every bone id / flag bit / parent / submesh / name CRC) for one representative version per branch (256, 260, 263, 264, 272). Documented normalisations are excluded by assumption and listed: unknown interpolation code -> Linear, NaN pivot -> 0.',
+     'Whole-model write->parse (model.rs, offsets, relocation of animation data), skin, anim, converter, M2Header, M2Texture (Seek-based string), vertex records: NOT under contract. Observed, not decided: M2CompQuat::parse negates x while write does not.',
+     ['model.rs', 'header.rs: M2Header::parse/write', 'skin.rs', 'anim.rs', 'converter.rs', 'chunks/texture.rs, vertex.rs and the remaining chunk types', 'common.rs: M2ArrayString, FixedString, read_array'])
+
+prop('C19', 'proof',
+     'Kani harnesses on E11 statement blocks extracted from the real extern "C" functions + complete harness on handle conversion',
+     'Partial: single-call cursor arithmetic and handle conversion. Kani complete: handle_to_id rejects exactly the null handle and maps every other pointer value to itself without truncation (forged handles cannot alias live ids), id_to_handle inverts it; the position block of SFileSetFilePointer keeps the cursor inside the data for every i32 low/high part, every move method and every cursor/length value, without overflow (F11 repaired). Kani bounded: the cursor/copy block of SFileReadFile reports min(to_read, remaining), advances the cursor by exactly that, stays inside the data and (pointer checks on) writes only inside a caller buffer of to_read bytes (data <= 3 bytes, request <= 4 bytes).',
+     'Threads, lock order across the three global tables, handle lifetime histories, agreement with the Rust API over real archives, every other SFile* function: NOT under contract (Kani has no threads; the global LazyLock<Mutex<HashMap>> tables exhaust CBMC). Block units verify the extracted statements only.',
+     ['lib.rs: all SFile* functions except the two extracted blocks; FILES/ARCHIVES/FINDS tables; SFileCloseArchive invalidation'])
+
 prop('C16', 'proof',
      'Kani complete harnesses on the real header codec, locator bounds and mip arithmetic; Kani bounded harnesses on E11 blocks of the alpha bit packing',
      'Partial. Kani complete (full field domains): parse_header(encode_header(h)) == h for BLP0/BLP1/BLP2 (every content kind, defined alpha depth, compression, alpha type, flag value, dimension <= 65535, locator table) and the encoded size equals the header size of the version; get_bounded_slice returns exactly [offset, offset+size) and only when it lies inside the file, for all u32 offset/size (F3 repaired); mipmap_size(i) == (max(w>>i,1), max(h>>i,1)) for all u32 w,h and every level, pixel count is the product and never overflows (F14 repaired); parse_header is total on arbitrary bytes. Kani bounded: the 1-bit and 4-bit alpha packing loops (E11 blocks of convert/raw1.rs) produce ceil(n*bits/8) bytes with pixel i at the bit position the reader unpacks, quantised to the declared depth (<= 10 / <= 6 pixels, partial last byte included).',
@@ -70,10 +90,10 @@ prop('C17', 'proof',
       'stringblock.rs: CachedStringBlock', 'field_parser.rs, lazy.rs, mmap.rs, parallel.rs, versions.rs, schema.rs: Schema::validate'])
 
 prop('C18', 'proof',
-     'Kani complete harness (loop-free, full finite domain, IEEE-754 bit-precise) on the real crate',
-     'world_to_tile(tile_to_world(x,y)) == (x,y) proved for all 64x64 tiles symbolically by CBMC on the real functions compiled in place (F4 repaired).',
-     'Trusted: CBMC float semantics = hardware IEEE-754 f32. Whole-file WDT/WDL round trips not under contract yet.',
-     ['wow-wdt: WdtReader::read, WdtWriter::write, chunks/*, conversion.rs', 'wow-wdl: parser.rs, conversion.rs, validation.rs'])
+     'Verus contracts on extracted MAIN/MAID chunk codecs; Kani complete harness (full finite domain, IEEE-754 bit-precise) on the coordinate functions',
+     'Proved unbounded (Verus, on extracted code with generic Read/Write instantiated by in-memory models): MainChunk::read places entry (x,y) at byte offset (y*64+x)*8 as two little-endian words and MainChunk::write emits exactly that layout (so parse(write(c)) == c and write(parse(b)) == b); MaidChunk::read/write do the same for every section at offset ((s*64+y)*64+x)*4. Kani complete: world_to_tile(tile_to_world(x,y)) == (x,y) for all 64x64 tiles, IEEE-754 bit-precise (F4 repaired).',
+     'Trusted: CBMC float semantics = hardware IEEE-754 f32; generic impl Read / impl Write parameters are instantiated with in-memory models (E12); u32::from_le_bytes/to_le_bytes are trusted wrappers. MPHD/MWMO/MODF chunks, chunk framing in WdtReader/WdtWriter, version conversion and the whole WDL crate (offset table vs emission order) are NOT under contract.',
+     ['wow-wdt: WdtReader::read, WdtWriter::write (chunk framing), MphdChunk, MwmoChunk, ModfChunk, conversion.rs, version.rs', 'wow-wdl: parser.rs (parse/write incl. MAOF offsets), types.rs, conversion.rs, validation.rs'])
 
 json.dump(R, open(os.path.join(V, 'registry.json'), 'w'), indent=1)
 print('registry: %s' % ' '.join(sorted(R)))
